@@ -96,10 +96,33 @@ def rule_r2(ctx):
                   "an explicitly given name can be overwritten (or a name not produced by the guarded generator is assigned)",
                   how="single assignment under `name is None` from the generator")
         adds = [c for c in calls_in(f) if norm(c.func) == f"self.{reg}.add" and c.args and norm(c.args[0]) == f"{p}.name"]
-        ok = len(adds) == 1 and cfg.dominates(cfg.nodes_containing(adds[0])[0], cfg.exit)
-        ctx.check("R2", f"{reg_fn}: the final name is registered on every path", bool(ok), f, f.node,
+        ok = len(adds) == 1
+        bad_node = f.node
+        if ok:
+            addn = cfg.nodes_containing(adds[0])[0]
+            # a path may skip the registration only for a name the generator can never produce: an early return under
+            # `not <obj>.name.startswith(K)` with K a constant prefix of the constant head of the generator's f-string
+            head = ""
+            g = na.methods.get(gen)
+            for n in own_nodes(g.node):
+                if isinstance(n, ast.Assign) and isinstance(n.value, ast.JoinedStr) and n.value.values and isinstance(n.value.values[0], ast.Constant):
+                    head = str(n.value.values[0].value)
+            justified = set()
+            for r in (n for n in own_nodes(f.node) if isinstance(n, ast.Return)):
+                iff = getattr(r, "_parent", None)
+                t = iff.test if isinstance(iff, ast.If) and r in iff.body else None
+                if isinstance(t, ast.UnaryOp) and isinstance(t.op, ast.Not) and isinstance(t.operand, ast.Call) and isinstance(t.operand.func, ast.Attribute) \
+                        and t.operand.func.attr == "startswith" and norm(t.operand.func.value) == f"{p}.name" and len(t.operand.args) == 1 \
+                        and isinstance(t.operand.args[0], ast.Constant) and isinstance(t.operand.args[0].value, str) and t.operand.args[0].value \
+                        and head.startswith(t.operand.args[0].value):
+                    justified |= {x.id for x in cfg.node_of(r)}
+                else:
+                    bad_node = r
+            ok = not cfg.path_exists_avoiding(cfg.entry, {cfg.exit.id}, {addn.id} | justified)
+        ctx.check("R2", f"{reg_fn}: the final name is registered on every path", bool(ok), f, bad_node,
                   "the name in use is not recorded, so the generator may hand it out again",
-                  how="registry.add(<obj>.name) dominates the exit")
+                  how="registry.add(<obj>.name) is on every path to the exit, except early returns for names that cannot start "
+                      "with the constant head of the generated format")
 
 
 def rule_r3(ctx):
